@@ -55,6 +55,9 @@ def gen_iface(g, k):
             m['ret'], m['outs'] = Ty('()', ''), []
         elif rk == 'single':
             t = g.field_type(budget=40)
+            while t.rust.startswith('('):
+                # (a Rust tuple is several out arguments: the 'tuple' kind)
+                t = g.field_type(budget=40)
             m['ret'], m['outs'] = t, [t]
         elif rk == 'tuple':
             parts = [g.field_type(budget=30) for _ in range(r.randint(2, 3))]
@@ -92,8 +95,9 @@ def gen_iface(g, k):
         if p['emits'] == 'const':
             acc = 'r'
         if acc == 'w':
-            # (the attribute cannot be given on setters: a write-only property has the default mode)
-            p['emits'] = 'true'
+            # (the attribute cannot be given on setters; a write-only property cannot be read back, so
+            # it is documented — and introspected — as not emitting change signals)
+            p['emits'] = 'false'
         p['read'], p['write'] = 'r' in acc, 'w' in acc
         p['rejects'] = p['write'] and r.random() < 0.4
         p['getter_fallible'] = p['read'] and r.random() < 0.2
@@ -178,7 +182,7 @@ def emit_iface(g, I):
             else:
                 o.append(f'    fn {p["fn"]}(&self) -> {t} {{ self.{p["fn"]}.clone() }}')
         if p['write']:
-            o.append(f'    #[zbus(property{pa if first else ""})]')
+            o.append('    #[zbus(property)]')
             lab = f'let label = format!("{rs}.{p["member"]}|set|{{}}", lbl(&[v.to_r()])); self.log.lock().unwrap().push(label.clone());'
             if p['rejects']:
                 o.append(f'    fn set_{p["fn"]}(&mut self, v: {t}) -> zbus::fdo::Result<()> {{ {lab} if fails(&label).is_some() {{ return Err(zbus::fdo::Error::InvalidArgs("rejected".into())); }} self.{p["fn"]} = v; Ok(()) }}')
